@@ -1,6 +1,8 @@
 package eng
 
 import (
+	"fmt"
+	"os"
 	"go/token"
 	"go/types"
 	"sort"
@@ -160,6 +162,13 @@ func (p *Prog) PathString(path []*ssa.BasicBlock) string {
 			s = "L" + s[i+1:]
 		}
 		parts = append(parts, s)
+	}
+	if os.Getenv("RLINT_DEBUG") != "" {
+		var idx []string
+		for _, b := range path {
+			idx = append(idx, fmt.Sprint(b.Index))
+		}
+		return strings.Join(parts, "→") + " blocks=" + strings.Join(idx, ",")
 	}
 	if len(parts) > 14 {
 		parts = append(parts[:6], append([]string{"…"}, parts[len(parts)-6:]...)...)
@@ -776,6 +785,12 @@ var neverNil = map[string]bool{
 	"global:internal/errors.New": true, "global:internal/errors.Errorf": true,
 	"fmt.Errorf": true, "errors.New": true, "internal/errors.Fatal": true, "internal/errors.Fatalf": true,
 	"github.com/pkg/errors.New": true, "github.com/pkg/errors.Errorf": true,
+}
+
+// nilPreserving lists error wrappers whose result is nil exactly when their first argument is.
+var nilPreserving = map[string]bool{
+	"global:internal/errors.Wrap": true, "global:internal/errors.Wrapf": true, "global:internal/errors.WithStack": true,
+	"github.com/pkg/errors.Wrap": true, "github.com/pkg/errors.Wrapf": true, "github.com/pkg/errors.WithStack": true,
 }
 
 // MayBeNil is like the package-level MayBeNil but also knows the error constructors that
